@@ -234,3 +234,39 @@ def gen_symbol(rng, cli, seq=False, maxlen=40):
     if rng.random() < 0.3:
         kw['mask'] = rng.randrange(4) if (kw.get('micro') is True or rng.random() < 0.5) else rng.randrange(8)
     return content, kw
+
+
+SHORT_ALIASES = {'--version': '-v', '--error': '-e', '--mode': '-m', '--pattern': '-p', '--symbol-count': '-sc',
+                 '--border': '-b', '--scale': '-s', '--output': '-o'}
+
+
+def stylize(argv, style):
+    """Re-spells a CLI argument list without changing its meaning, deterministically from the integer `style`:
+    '--flag=value' / '--flag value' / short alias, 'transparent' / 'trans', and the content (last element) split into
+    several positional words (the CLI joins them with one blank). style 0 = unchanged."""
+    if not style:
+        return list(argv)
+    import random
+    rng = random.Random(style)
+    out = []
+    flags, content = list(argv[:-1]), argv[-1]
+    for a in flags:
+        if a.startswith('--') and '=' in a:
+            flag, val = a.split('=', 1)
+            if val == 'transparent' and rng.random() < 0.5:
+                val = 'trans'
+            r = rng.random()
+            if val.startswith('-') or r < 0.4:
+                out.append('%s=%s' % (flag, val))
+            elif r < 0.7 or flag not in SHORT_ALIASES:
+                out += [flag, val]
+            else:
+                out += [SHORT_ALIASES[flag], val]
+        else:
+            out.append(a)
+    words = [content]
+    if isinstance(content, str) and ' ' in content.strip() and rng.random() < 0.6:
+        w = content.split(' ')
+        if all(x and not x.startswith('-') for x in w):
+            words = w
+    return out + words
